@@ -117,7 +117,10 @@ function genSpec(seed, idx) {
         const s = rng.pick(structs);
         // lifetime slots of a struct are often instantiated with one and the same lifetime
         const same = rng.chance(1, 2) ? anyLt() : null;
-        params.push({ name: "p" + p, kind: "struct", ty: s.name, args: s.lts.map(() => same ?? anyLt()) });
+        // a slot of a struct parameter may also be instantiated with 'static (it then lends nothing)
+        const args = s.lts.map(() => same ?? anyLt());
+        if (args.length >= 2 && rng.chance(1, 4)) args[rng.below(args.length)] = "static";
+        params.push({ name: "p" + p, kind: "struct", ty: s.name, args });
       }
     }
     if (nl === 0 && namedImpl.length >= 2 && self && self.lt) {
